@@ -103,6 +103,7 @@ class Env:
         self.horizon = horizon
         self.injected: list = []  # (step, action, virtual time, socket index, fsm state before)
         self.step = 0
+        self.speaks_first = False  # 'local-as auto': the remote sends its OPEN as soon as the connection is up
         self.multi = False  # several neighbors: the well-behaved remote answers on every connection
         self.remote_by_address: dict = {}  # peer address -> Remote keyword overrides (asn, router_id)
 
@@ -160,7 +161,7 @@ class Env:
         for s in candidates:
             r = self.remote(s)
             types = r.received_types()
-            if wire.OPEN in types and s.index not in self.sent_open:
+            if (wire.OPEN in types or self.speaks_first) and s.index not in self.sent_open:
                 return f'open:{s.index}'
             if wire.KEEPALIVE in types and s.index in self.sent_open and s.index not in self.sent_ka:
                 return f'keepalive:{s.index}'
